@@ -159,7 +159,7 @@ def st_ds(draw, need_img=False, need_fl=False, need_trace=False, clean=False):
                                 max_size=len(comp))),
         "meta_late": draw(st.booleans()),
         "full": clean or draw(st.booleans()),
-        "auto": draw(st.sampled_from(["given", "omit", "wrong"])),
+        "auto": draw(st.sampled_from(["given", "omit", "wrong", "wrong_x", "wrong_y"])),
         "lasers": sorted(lasers),
         "zeropower": draw(st.booleans()),
         "log": 0 if clean else draw(st.integers(0, 3)),
@@ -308,7 +308,7 @@ def enumerate_cases(tier):
         out.append(_case(full, mode="closure", ops=[(o, i)]))
         out.append(_case(noidx, mode="closure",
                          ops=[(o, i + 1), (OPS_ALL[(i + 3) % len(OPS_ALL)], i)]))
-    for auto in ("omit", "wrong"):
+    for auto in ("omit", "wrong", "wrong_x", "wrong_y"):
         t = dict(full, auto=auto, meta_late=(auto == "wrong"))
         out.append(_case(t, mode="closure", ops=[("compress", 0)]))
         out.append(_case(dict(t, route="dict", contour=False, trace=None),
@@ -459,11 +459,15 @@ def _meta(ds, idx=0, defects=()):
         pass
     elif has_img and auto == "wrong":
         m["imaging"].update({"roi size x": 999, "roi size y": 1})
+    elif has_img and auto == "wrong_x":     # only one of the two is stale
+        m["imaging"].update({"roi size x": 999, "roi size y": ds["img"][0]})
+    elif has_img and auto == "wrong_y":
+        m["imaging"].update({"roi size x": ds["img"][1], "roi size y": 1})
     elif ds["img"]:
         m["imaging"].update({"roi size x": ds["img"][1], "roi size y": ds["img"][0]})
     else:
         m["imaging"].update({"roi size x": 250, "roi size y": 80})
-    if auto == "wrong":
+    if auto.startswith("wrong"):
         m["experiment"]["event count"] = ds["n"] + 3
     elif auto == "given":
         m["experiment"]["event count"] = ds["n"]
@@ -488,7 +492,7 @@ def _meta(ds, idx=0, defects=()):
         if auto != "omit":
             f["channel count"] = len(ds["fl"])
         if ds["trace"]:
-            if auto == "wrong":
+            if auto.startswith("wrong"):
                 f["samples per event"] = ds["trace"]["ns"] + 5
             elif auto == "given":
                 f["samples per event"] = ds["trace"]["ns"]
